@@ -729,6 +729,33 @@ func c06RunStress(in c06In, slow time.Duration) (obs c06Obs) {
 			}(g)
 		}
 	}
+	// the hammers also open protocol streams themselves: their own handshakes are in flight, so the stream
+	// wrapper really waits in waitHandshake on an entry that the finishing handshakes keep rewriting
+	for _, h := range append([]host.Host{}, hosts...) {
+		h := h
+		wg.Add(1)
+		go func() {
+			defer wg.Done()
+			for !stopped() {
+				if h.Connect(ctx, target) != nil {
+					time.Sleep(time.Millisecond)
+					continue
+				}
+				s, err := h.NewStream(ctx, target.ID, protoID)
+				if err != nil {
+					continue
+				}
+				var one [1]byte
+				_ = s.SetDeadline(time.Now().Add(2 * time.Second))
+				if _, err := s.Write([]byte{0}); err == nil {
+					if _, err := s.Read(one[:]); err != nil {
+						nStreams.Add(1)
+					}
+				}
+				_ = s.Reset()
+			}
+		}()
+	}
 	// registered peers that keep repeating a complete valid handshake (the Service answers "peer
 	// already exists" and keeps the connection)
 	for i := 0; i < in.Hammers; i++ {
@@ -1018,7 +1045,12 @@ func c06RepoRaces(out string) []string {
 			if len(frames) > 3 {
 				frames = frames[:3]
 			}
-			res = append(res, "DATA RACE: "+strings.Join(frames, " <-> "))
+			kind := "DATA RACE: "
+			if strings.Contains(blk, "runtime.mapaccess") || strings.Contains(blk, "runtime.mapassign") ||
+				strings.Contains(blk, "runtime.mapdelete") || strings.Contains(blk, "runtime.mapiter") {
+				kind = "DATA RACE ON A MAP: " // without the detector the runtime aborts the process on these
+			}
+			res = append(res, kind+strings.Join(frames, " <-> "))
 		}
 	}
 	return res
@@ -1059,11 +1091,22 @@ func c06RunRace(t *testing.T, in c06In, slow int) (obs c06Obs, ok bool) {
 		obs = c06Obs{Panic: true, Note: c06CrashNote(string(outb))}
 	}
 	if races := c06RepoRaces(string(outb)); len(races) > 0 {
-		note := fmt.Sprintf("%d race reports in repository code; %s", len(races), races[0])
+		first, onMap := races[0], false
+		for _, r := range races {
+			if strings.HasPrefix(r, "DATA RACE ON A MAP") {
+				first, onMap = r, true
+				break
+			}
+		}
+		note := fmt.Sprintf("%d race reports in repository code; %s", len(races), first)
 		if len(note) > 500 {
 			note = note[:500]
 		}
-		obs = c06Obs{Panic: true, Note: note}
+		if onMap || obs.Panic {
+			obs = c06Obs{Panic: true, Note: note} // a crash in a normal build
+		} else {
+			obs = c06Obs{Res: 3, Note: note} // result class 3: unsynchronised access reported, no crash
+		}
 	}
 	return obs, true
 }
